@@ -244,6 +244,41 @@ def _rotations(ctx, cfg):
             ctx.eq_arrays("rotate_rho_probs/%s/extras: real terms sum to result" % label, np.sum(pv._arr[0], axis=(0, 1)), p._arr, z3_confirm=False)
     ctx.holds("batch-of-outcomes-not-modified", torch.equal(batch, keep))
 
+    # ---- history: the same basis string with ANOTHER dictionary in the same process (nothing may be carried over from
+    # the calls above: user-added unitaries, states with different dictionaries, a dictionary edited in place)
+    if symbolic:
+        ud2 = {"Z": base["Z"]}
+        for L in sorted(set(basis) | {"X"}):
+            if L != "Z":
+                ud2[L] = _sym_complex((2, 2), "V" + L)
+        uc2 = {k: U.cdec(st._obj(v)) for k, v in ud2.items()}
+        Ud2 = U.kron_dense([uc2[b] for b in basis])
+        Upsi2 = U.matvec(Ud2, psi_c)
+        UrU2 = U.matmat(U.matmat(Ud2, rho_c), U.dagger(Ud2))
+        for holder, how in ((cw, "a second state / replaced dictionary"), (cw, "dictionary edited in place")):
+            if how.startswith("a second"):
+                cw.unitary_dict = dict(ud2)
+                dm.unitary_dict = dict(ud2)
+            else:
+                cw.unitary_dict = dict(ud)
+                dm.unitary_dict = dict(ud)
+                unitaries.rotate_psi_inner_prod(cw, basis, batch, psi=psi_t)
+                unitaries.rotate_rho_probs(dm, basis, batch, rho=rho_t)
+                for k_ in list(cw.unitary_dict):
+                    cw.unitary_dict[k_] = ud2[k_]
+                    dm.unitary_dict[k_] = ud2[k_]
+            a = unitaries.rotate_psi_inner_prod(cw, basis, batch, psi=psi_t)
+            for b, k in enumerate(order[:D]):
+                ctx.eq("history/%s: rotate_psi_inner_prod uses the dictionary of this call[b=%d]" % (how, b), a._arr[0, b] + I * a._arr[1, b], Upsi2[k], z3_confirm=False)
+            p = unitaries.rotate_rho_probs(dm, basis, batch, rho=rho_t)
+            for b, k in enumerate(order[:D]):
+                ctx.eq("history/%s: rotate_rho_probs uses the dictionary of this call[b=%d]" % (how, b), p._arr[b], alg.re(UrU2[k, k]), z3_confirm=False)
+            r2 = unitaries.rotate_psi(cw, basis, space, psi=psi_t)
+            ctx.eq_arrays("history/%s: rotate_psi uses the dictionary of this call" % how, U.cdec(r2._arr), Upsi2, z3_confirm=False)
+            a3 = unitaries.rotate_psi_inner_prod(cw, basis, batch, unitaries=dict(ud), psi=psi_t)
+            for b, k in enumerate(order[:D]):
+                ctx.eq("history/%s: an explicit unitaries= argument takes precedence[b=%d]" % (how, b), a3._arr[0, b] + I * a3._arr[1, b], Upsi[k], z3_confirm=False)
+
     # ---- lemma: unitarity consequences for the default dictionary (physical states)
     if not symbolic:
         n2 = ZERO
